@@ -79,6 +79,11 @@ func RunWithFallback(c *core.Ctx, p Prop, thorough bool) {
 	first := c.Rollback(m)
 	m2 := c.Mark()
 	c.Prog.Override = over
+	saved := map[string]*packages.Package{}
+	for path, v := range over {
+		saved[path] = c.Prog.ByPath[path]
+		c.Prog.ByPath[path] = v // callee resolution (an.FnOf) must land in the variant as well
+	}
 	func() {
 		defer func() {
 			if r := recover(); r != nil {
@@ -88,6 +93,9 @@ func RunWithFallback(c *core.Ctx, p Prop, thorough bool) {
 		run()
 	}()
 	c.Prog.Override = nil
+	for path, v := range saved {
+		c.Prog.ByPath[path] = v
+	}
 	if force {
 		fmt.Fprintf(os.Stderr, "normal form: %d helpers inlined (%s); holds=%v\n", len(names), strings.Join(names, ", "), c.HoldSince(m2))
 		for _, o := range c.Obs {
